@@ -376,6 +376,7 @@ var fixedPool = []Val{
 	{"0.0", "float", nil}, {"2.5", "float", nil}, {"-1.5", "float", nil}, {"1.0", "float", nil}, {"1.0e300", "float", nil}, {`"Inf".F`, "float", nil}, {`"-Inf".F`, "float", nil}, {`"NaN".F`, "float", nil},
 	{"PF.new(2.5)", "float", nil}, {"PF.new(0.5)", "float", nil}, {"PF.new(-7.25)", "float", nil},
 	{`""`, "str", nil}, {`"a"`, "str", nil}, {`"b"`, "str", nil}, {`"ab"`, "str", nil}, {`"B"`, "str", nil}, {`"日本"`, "str", nil}, {"'a", "str", nil}, {"'zz", "str", nil},
+	{strconv.Quote(longStr(1, 0)), "str", nil}, {strconv.Quote(longStr(1, 2)), "str", nil}, {strconv.Quote(longStr(1, 3)), "str", nil}, {strconv.Quote(longStr(30, 0)), "str", nil}, {strconv.Quote(longStr(30, 2)), "str", nil}, {"PS.new(" + strconv.Quote(longStr(1, 2)) + ")", "str", nil},
 	{`PS.new("a")`, "str", nil}, {`PS.new("c")`, "str", nil}, {`PS.new("")`, "str", nil},
 	{"nil", "", nil}, {"PN.new", "", nil}, {"[]", "", nil}, {"[1]", "", nil}, {"[1, 2]", "", nil}, {"[2, 1]", "", nil}, {"[true]", "", nil}, {"[nil]", "", nil}, {"[[1], {a: [2]}]", "", nil}, {"[[1], {a: [3]}]", "", nil},
 	{"PA.new([1])", "", nil}, {"PA.new([1, 2])", "", nil}, {"PA.new([])", "", nil},
@@ -435,8 +436,35 @@ func genFloatSrc() *rapid.Generator[string] {
 
 var strAtoms = []string{"", "a", "b", "ab", "abc", "B", "z", "日本", "é", "a b", "0", "10", "9"}
 
+// longStr: "the quick brown fox ..." x reps, changed in one position according to variant.
+func longStr(reps, variant int) string {
+	b := []byte(strings.Repeat("the quick brown fox jumps over the lazy dog ", reps))
+	n := len(b)
+	switch variant {
+	case 1:
+		b[0] = 'T'
+	case 2:
+		b[n/2] = 'X'
+	case 3:
+		b[n-1] = '!'
+	case 4:
+		b[n/3] = 'Q'
+	case 5:
+		b = append(b, 'z')
+	case 6:
+		b[2*n/3] = 'Y'
+	case 7:
+		b[n/2+1] = 'X'
+	}
+	return string(b)
+}
+
 func genStrSrc() *rapid.Generator[string] {
 	return rapid.Custom(func(t *rapid.T) string {
+		if rapid.IntRange(0, 4).Draw(t, "long") == 0 {
+			// long strings that are equal or differ in a single position (start, inside, end) or in length
+			return strconv.Quote(longStr(rapid.SampledFrom([]int{1, 2, 30}).Draw(t, "reps"), rapid.IntRange(0, 7).Draw(t, "variant")))
+		}
 		s := rapid.SampledFrom(strAtoms).Draw(t, "s")
 		if rapid.IntRange(0, 3).Draw(t, "cat") == 0 {
 			s += rapid.SampledFrom(strAtoms).Draw(t, "s2")
